@@ -527,11 +527,10 @@ impl Adf {
                 ac,
                 check_models
             );
-            let _ = self // return value can be ignored, but must be catched
-                .bdd
+            self.bdd
                 .interpretations(*ac, check_models, Var(idx), &[], &[])
                 .iter()
-                .try_for_each(|(negative, positive)| {
+                .for_each(|(negative, positive)| {
                     let mut new_int = interpr.to_vec();
                     let res = negative
                         .iter()
@@ -564,7 +563,6 @@ impl Adf {
                             ));
                         }
                     }
-                    res
                 });
             log::trace!("results found so far:{}", result.len());
             // checked one alternative, we can now conclude that only the other option may work
